@@ -695,11 +695,19 @@ public:
 	{
 		ResetKey();
 		// Skip key/values that was not read
-		for (size_t c = mIndex; c < mSize; ++c)
+		try
 		{
-			mMsgPackReader->SkipValue();
-			mMsgPackReader->SkipValue();
-			++mIndex;
+			for (size_t c = mIndex; c < mSize; ++c)
+			{
+				mMsgPackReader->SkipValue();
+				mMsgPackReader->SkipValue();
+				++mIndex;
+			}
+		}
+		catch (...)
+		{
+			// A destructor must not throw (std::terminate): when the rest of the object is truncated or corrupted,
+			// the reader is left where the error occurred and the next read (if any) reports it.
 		}
 	}
 
